@@ -1652,9 +1652,9 @@ def c20(ctx):
     ctx.cov["samples"] = samples(cases)
     ctx.assumptions.append("partial: stack exhaustion and allocation failure of the Go runtime are not modelled; "
                            "reachable => wfe is proved for the statement builders (Model/Api.v: entry points and every method "
-                           "of the SELECT / INSERT / UPDATE / DELETE / WITH builder families except ApplyIf and ApplySelectJson, "
-                           "which take functions); for the expression constructors (fn package, operators) it is checked on "
-                           "generated values only")
+                           "of the SELECT / INSERT / UPDATE / DELETE / WITH builder families) and for the expression constructors and "
+                           "ExpBase methods of Model/Ctor.v (C20_built_no_panic); for package fn, Float, the JSON object builder and "
+                           "the CASE chain it is checked on generated values only")
 
 
 def baseline_off():
